@@ -13,6 +13,8 @@ pub fn instances(tier: &str) -> Vec<String> {
         v.push(format!("solve_dd:n={}", n));
     }
     for n in 1..=3 { v.push(format!("csolve:n={}", n)); }
+    // element-wise arithmetic is ONE IEEE operation per entry (props/fparith.rs)
+    v.push("fp_arith:of=tridiagonal,n=3".into());
     v
 }
 
